@@ -511,8 +511,8 @@ class ImmutableVersion(dns.zone.Version):
                 len(origin),
             )
             right_key = None
-        closest_encloser = dns.name.Name(
-            name[-max(left_comparison[2], right_comparison[2]) :]
+        _, closest_encloser = name.split(
+            max(left_comparison[2], right_comparison[2])
         )
         return Bounds(
             name,
